@@ -14,10 +14,9 @@ def run(ctx):
     if not ctx.build_driver():
         return
     h = _v2.harness(ctx, 'tok')
-    if not h:
-        return
-    _v2.tables_gate(ctx)
-    _v2.tok_stream(ctx, h)
+    if h:   # the oracle below runs even when the model-stream harness failed
+        _v2.tables_gate(ctx)
+        _v2.tok_stream(ctx, h)
     if _v2.harness(ctx, 'c06'):
         ctx.oracle_stream('ignored-variations', ctx.rundir + '/c06.verdicts', ctx.rundir + '/c06.cases')
     ctx.cov['distinct_nontrivial'] = sum(v['nontrivial'] for v in ctx.cov['streams'].values())
